@@ -370,6 +370,15 @@ def exec_for(I, st, node):
             yield st1, ("raise", _exc("TypeError", "'%s' object is not iterable" % ("NoneType" if it is None else type(it).__name__)).exc)
             continue
         sym = symbolic_iter(I, st1, it)
+        from .values import IterE
+
+        if sym is None and isinstance(it, Ref) and isinstance(st1.get(it), IterE):
+            # `for x in <iterator>`: every step takes the next item away from the iterator; `break` leaves the rest in it
+            from .models import iterator_start
+
+            iterator_start(I, st1, it)
+            yield from unroll_once(I, st1, node, it, 0)
+            continue
         if sym is None:
             live = live_list_ref(I, st1, it)
             if live is not None:
@@ -447,13 +456,13 @@ def lazy_end(st, old, acc):
         st.ghost[("lazy_src", acc.id)] = rec
 
 
-def lazy_note(st, ref, items):
+def lazy_note(st, ref, items, own=True):
     """called for every list / dict / set that is iterated: remember it (and what an eager list iterated here itself
-    depends on)"""
+    depends on); own=False for a one-shot iterator: consuming it empties it, so only what it was computed from is watched"""
     deps = st.ghost.get(("lazy_src", ref.id), ())
     if _REC in st.ghost:
         mark = st.ghost.get(_MARK, 0)
-        st.ghost[_REC] = st.ghost[_REC] + tuple(r for r in ((ref.id, tuple(items)),) + deps if r[0] <= mark)
+        st.ghost[_REC] = st.ghost[_REC] + tuple(r for r in (((ref.id, tuple(items)),) if own else ()) + deps if r[0] <= mark)
     if deps:
         st.ghost["__last_lazy__"] = st.ghost.get("__last_lazy__", ()) + deps
 
@@ -587,6 +596,49 @@ def unroll_live(I, st, node, ref, k):
                 continue
             yield from _live_rest(I, list(I.ex_block(node.body, st1)), node, ref, k)
         return
+
+
+def unroll_once(I, st, node, ref, k):
+    """`for x in <iterator>` (see values.IterE): items are taken from the front of the iterator one by one"""
+    while True:
+        e = st.get(ref)
+        if k > 4000:
+            raise Unsupported("loop over more than 4000 items")
+        if k > 0:
+            lazy_check(st, st.ghost.get(("lazy_src", ref.id)))
+        if not e.items:
+            e.consumed = True
+            if node.orelse:
+                yield from I.ex_block(node.orelse, st)
+            else:
+                yield st, None
+            return
+        x = e.items.pop(0)
+        outs = list(I.assign(node.target, x, st))
+        if len(outs) == 1 and not isinstance(outs[0][1], Exc):
+            body = list(I.ex_block(node.body, outs[0][0]))
+            if len(body) == 1 and (body[0][1] is None or body[0][1][0] == "continue"):
+                st = body[0][0]
+                k += 1
+                continue
+            yield from _once_rest(I, body, node, ref, k)
+            return
+        for st1, r in outs:
+            if isinstance(r, Exc):
+                yield st1, ("raise", r.exc)
+                continue
+            yield from _once_rest(I, list(I.ex_block(node.body, st1)), node, ref, k)
+        return
+
+
+def _once_rest(I, body, node, ref, k):
+    for st2, ctrl in body:
+        if ctrl is None or ctrl[0] == "continue":
+            yield from unroll_once(I, st2, node, ref, k + 1)
+        elif ctrl[0] == "break":
+            yield st2, None
+        else:
+            yield st2, ctrl
 
 
 def _live_rest(I, body, node, ref, k):
@@ -865,7 +917,16 @@ def call_generator(I, st, f, args, kwargs):
         yield st, Exc(err)
         return
     I.note_function(f)
-    acc = st.alloc(ListE([]))
+    # The body runs NOW, at the call; CPython runs it piecewise while the generator is consumed (nothing at all at the call).
+    # The two agree if the body has no effect besides the values it yields, or if the generator is handed directly to a
+    # complete consumer: Interp.ev_Call checks that for a call written in the source and announces it here; a generator
+    # function reached in another way (an implicit __iter__, a callback of a model) is checked here.
+    guarded = st.ghost.get("__iter_guard__") == id(f.node)
+    st.ghost.pop("__iter_guard__", None)
+    before = None if guarded else st.fork()
+    from .values import IterE
+
+    acc = st.alloc(IterE([]))
     vars["__yields__"] = acc
     fr = Frame(vars, f, f.module, f.cls)
     st.frames.append(fr)
@@ -873,9 +934,18 @@ def call_generator(I, st, f, args, kwargs):
     for st1, ctrl in I.ex_block(f.node.body, st):
         I.pop_frame(st1)
         lazy_end(st1, old, acc)
+        if before is not None and not I._unchanged(before, st1):
+            raise Unsupported("generator %s changes existing state: its side effects would happen at creation instead of during iteration" % f.qualname())
         if ctrl is None or ctrl[0] == "return":
             yield st1, acc
         elif ctrl[0] == "raise":
+            if I.is_subclass(ctrl[1].cls, BuiltinClass("StopIteration", StopIteration)):
+                # PEP 479: a StopIteration that escapes a generator body is turned into RuntimeError
+                yield st1, Exc(ExcVal(BuiltinClass("RuntimeError", RuntimeError), ("generator raised StopIteration",)))
+                continue
+            if before is not None and st1.get(acc).items:
+                # an exception belongs to the step that reaches it, after the items yielded before it were delivered
+                raise Unsupported("generator %s raises after yielding items (eager evaluation would lose the items)" % f.qualname())
             yield st1, Exc(ctrl[1])
         else:
             raise EngineError("break/continue escaped generator")
